@@ -72,21 +72,13 @@ fn ref_string(b: &[u8], pos: &mut usize, n: u32, out: &mut [u8; 16]) -> usize {
     }
 }
 
-// @h props=C16,C14 tier=quick t=3000 mem=20 sub=request-field-section
-// @fn wtransport-proto/src/headers.rs Headers::{generate_frame,sorted_headers,insert}; wtransport-proto/src/qpack.rs Encoder::{encode,encode_integer,encode_string} StaticTable::lookup_index (re-hosted over the model map / model Huffman coder)
-// @bound the request of a WebTransport session: five pseudo-headers (:authority = 1 symbolic ASCII byte, :path = "/" + 1 symbolic ASCII byte) plus one application field with a 1-byte symbolic lower-case name and a 1-byte symbolic value
-// @oracle independent RFC 9204 §4.5 reference decoder: section prefix 00 00; every line is an indexed static line (1 1 idx), a literal with static name reference (0 1 N=0 T=1 idx + string) or a literal with literal name (0 0 1 N=0 H + strings); no dynamic-table reference; all pseudo-header lines precede the application field; the decoded (name,value) list equals the input map; static hits use the row of RFC 9204 Appendix A
-// @assume model map (insertion order = iteration order; the oracle checks the set and the pseudo-header-first rule only); model Huffman coder (H=1 only when its code is strictly shorter)
-// @outside names/values longer than 2 bytes; the real Huffman code
-#[kani::proof]
-#[kani::unwind(101)]
-#[kani::stub(core::str::validations::run_utf8_validation, crate::vh::util::utf8_validation_stub)]
-fn m_request_field_section() {
+#[allow(dead_code)]
+fn request_field_section(k: u8) {
     let a: u8 = kani::any();
     let p: u8 = kani::any();
-    let k: u8 = kani::any();
     let v: u8 = kani::any();
-    kani::assume(a >= b'a' && a <= b'z' && p >= b'a' && p <= b'z' && k >= b'a' && k <= b'z' && v >= b'0' && v <= b'9');
+    kani::assume(a >= b'a' && a <= b'z' && p >= b'a' && p <= b'z' && v >= b'0' && v <= b'9');
+
     let ab = [a];
     let pb = [b'/', p];
     let kb = [k];
@@ -183,13 +175,23 @@ fn m_request_field_section() {
     core::mem::forget(h);
 }
 
+// NOTE: `request_field_section` (whole `Headers::generate_frame` -> reference decoder) is kept for experiments but not
+// registered: symbolic execution of `Encoder::encode` (Vec growth inside loops with symbolic trip counts) did not leave
+// the symbolic-execution phase in 30 min even with per-loop unwinding bounds. The ordering rule is decided on
+// `Headers::sorted_headers` directly (below), the line kernels under C14/C16 in kani/proto.
+
+// NOTE (pseudo-header-first rule, RFC 9114 §4.3): two attempts to decide it on `Headers::sorted_headers` failed and
+// were removed: with symbolic names `sort_by_key` over string slices exhausted 20 GB; with concrete names Kani reported
+// a counterexample that passes natively (the slice sort moves `(&str, &str)` pairs through raw-pointer selects, which
+// CBMC over-approximates - DESIGN §3 6c). The rule is therefore OUTSIDE the claim of C16 (seeded mutant C16 is missed).
+
 // @h props=C14,C16 tier=quick t=2400 mem=20 sub=qpack-string-roundtrip
 // @fn wtransport-proto/src/qpack.rs Encoder::encode_string::<7> Decoder::decode_string::<7> Encoder::encode_integer Decoder::decode_integer (over the model Huffman coder)
 // @bound every ASCII string of exactly 3 bytes (covers the model code's shrinking case `ccc` and the non-shrinking case), flag bit arbitrary
 // @oracle H bit set iff the coded form is strictly shorter; length prefix == coded length; decode(encode(s)) == s consuming exactly the encoding
 // @assume model Huffman coder (invertible; shrinks runs of three equal bytes)
 #[kani::proof]
-#[kani::unwind(101)]
+#[kani::unwind(12)]
 #[kani::stub(core::str::validations::run_utf8_validation, crate::vh::util::utf8_validation_stub)]
 fn m_qpack_string_roundtrip_3() {
     use crate::qpack::verif as q;
